@@ -1,6 +1,6 @@
 """C18 - WebSocket receive buffering is FIFO, bounded and lossless under every schedule."""
 PROP = 'C18'
-LEAN_MODULES = ['FalconModel.WsBufProofs', 'FalconModel.WsUnbufProofs', 'FalconModel.WsBufRefine']
+LEAN_MODULES = ['FalconModel.WsBufProofs', 'FalconModel.WsUnbufProofs', 'FalconModel.WsBufRefine', 'FalconModel.WsModeProofs']
 DRIVERS = ['wbdriver', 'wudriver']
 THEOREMS = [
     'Wb.inv_init', 'Wb.pumpEnqueue_inv', 'Wb.segments_preserve',
@@ -18,8 +18,14 @@ THEOREMS = [
     'Wu.closed_monotone', 'Wu.dead_step', 'Wu.dead_run', 'Wu.disconnect_sticky',
     'Wu.recv_enabled', 'Wu.deliver_enabled_iff', 'Wu.parked_receive_completes',
     'Wu.unbuffered_refines_fifo', 'Wu.buffered_unbuffered_agree',
+    # configuration -> receive path (WebSocket.__init__): WsMode / WsModeProofs
+    'Wm.path_ignores_version', 'Wm.buffered_iff', 'Wm.direct_iff', 'Wm.configured_capacity_bound', 'Wm.flags_table',
 ]
 STATEMENTS = {
+    'Wm.path_ignores_version': 'WebSocket.__init__: the ASGI spec version announced by the server has no influence on which receive path the socket is wired to',
+    'Wm.buffered_iff': 'the socket uses a buffered receiver of capacity cap iff max_receive_queue = cap > 0 (every configured capacity is honoured exactly, under every spec version)',
+    'Wm.direct_iff': 'the unbuffered (direct) path is used iff max_receive_queue = 0',
+    'Wm.configured_capacity_bound': 'for every spec version and every max_receive_queue = q wired to a buffered receiver, every invariant state of that receiver holds at most q + 1 events',
     'Wb.segments_preserve': 'every atomic segment (what one task does between two awaits) of the pump task, of receive(), of a cancelled receive(), of _send and of stop() preserves the invariant: queue <= capacity; a pending pop-waiter implies an empty queue (no lost wake-up); a pump parked for room implies a full queue; waiter cells and attributes agree; app parked <=> pop-waiter exists; pump holding <=> put-waiter exists. Any enabled segment may fire, so the invariant holds under every schedule',
     'Wb.segments_conserve': 'every segment except stop() keeps  returned-to-the-application ++ held-by-the-framework = held-before ++ delivered-by-the-server  (as lists: order, no loss, no duplication)',
     'Wb.fifo_lossless_once': 'for every event log the trace-inclusion checker accepts (any interleaving of segments, no stop in it), from a state satisfying the invariant: what receive() returned followed by what is still held equals what was held before followed by what the server delivered, in order; and the invariant holds at the end',
@@ -59,24 +65,44 @@ TRUSTED = [
     'that _translate_webserver_error distinguishes',
 ]
 ASSUMPTIONS = [
+    'configurations: ASGI spec versions 2.0, 2.1, 2.2, 2.3, 2.4, 2.5, 2.10 (canonical "2.<minor>" strings, the versions falcon.asgi.App accepts), default_close_reasons empty or the stock table, '
+    'the WebSocket constructed directly or by falcon.asgi.App from ws_options.max_receive_queue and the scope; the scripted server\'s send() never raises in the buffered session (a server that does '
+    'not report the lost connection itself: the framework\'s own read-ahead is then the only way a sender learns of it)',
     'one receiver at a time (the framework asserts it); send/close may be issued from another task, which the schedule does',
     'unbuffered mode (max_receive_queue = 0): receive_text/receive_data, send_text, accept, close are modelled; receive_media (media handlers) and close reasons are not; a send that fails at the server, or close(), '
     'closes the socket and later receives raise without pulling - events still at the server are then not delivered, by design (same in buffered mode)',
     'promptness of the disconnect report to a sender is stated per loop turn: after the disconnect event was handed to the pump and the ready queue has turned once, every send raises; before it was handed over, none does',
 ]
+RULE_CONFIG = (' Configuration dimension: every run carries an announced ASGI spec version out of 2.0/2.1/2.2/2.3/2.4/2.5/2.10, an entry point (WebSocket constructed directly, or by a real falcon.asgi.App '
+               'from ws_options.max_receive_queue + scope[asgi][spec_version], the responder accepting and parking) and default_close_reasons empty/stock - rotated over the enumerated schedules, random in the '
+               'random ones, and the full cross product versions x entries x capacities 0..4 x disconnect x ending for every schedule of length <= 2. The oracle also demands read-ahead (one pull outstanding '
+               'whenever fewer than the configured number of events are held, the client has not disconnected and two loop turns have passed) and the public closed/ready properties.')
 RULE_UNBUFFERED = (' Unbuffered session (Wu model): the same enumerated {D,R,Y,C,S} schedules x k x {no disconnect, code 1001, code missing} x drain/close with accept first, plus random schedules of 3..30 steps over '
                    '{D,R,Y,C,S,X close(code),F send failing at the server,A accept} with 0..6 text/bytes messages, receive_text/receive_data patterns, disconnect codes incl. missing and 0, an event offered after the '
                    'disconnect, valid and invalid close codes, 9 server send-failure shapes, accept first or not; every executed atomic step (label, observation, closed/ready/unaccepted) and the final server-side counts are compared.')
 RULE = ('every schedule over {D deliver, R start receive, Y run ready queue, C cancel pending receive, S send} of length <= 4 (quick) / <= 6 (thorough), every schedule over '
         '{D,R,Y} of length 5..6 (quick) / 7..8 (thorough), each followed by a deterministic drain (deliver all, receive all) or by close(); x capacities 0..4 x k = 1..2 (quick) / 1..3 (thorough) '
         'messages x with/without a trailing disconnect; plus, for capacities 1..4, "fill the queue and park the pump" followed by every tail of <= 2 steps and drain/close; plus random schedules of 5..40 steps with k <= 8. The real falcon.asgi.ws.WebSocket (source mode) is driven; '
-        'non-trivial = at least one message was delivered and received; distinct = distinct (capacity, k, disconnect, schedule, ending)' + RULE_UNBUFFERED)
+        'non-trivial = at least one message was delivered and received; distinct = distinct (capacity, k, disconnect, schedule, ending, spec version, entry point, close reasons)' + RULE_CONFIG + RULE_UNBUFFERED)
 PARTIAL = ('the theorems are about the atomic-segment model; that asyncio runs the real coroutines segment by segment as modelled is established by trace inclusion on every generated '
            'schedule (exhaustive to the stated bounds), not by proof; liveness is stated fairness-free (buffered: no_lost_wakeup + resolved_receive_enabled; unbuffered: deliver_enabled_iff + '
            'parked_receive_completes). Unbuffered mode is proved over the Wu small-step model (one receiver at a time; receive_media and two concurrent receives are not modelled), which is tied to the real '
            'WebSocket by per-step comparison on generated schedules, not by proof. stop()/close() of the buffered receiver drops what the cancelled pump holds and is excluded from the conservation/refinement theorems')
 JOBS = {'quick': 4, 'thorough': 16}
 EXHAUSTIVE = {'quick': False, 'thorough': False}
+
+VERSIONS = ['2.0', '2.1', '2.2', '2.3', '2.4', '2.5', '2.10']      # around every version test in ws.py (!= '2.0', >= (2, 3)) and the newest spec (2.4: send() should raise), 2.10 > 2.3 as integer pairs
+ENTRIES = ['direct', 'direct', 'app']
+
+
+def cfg_at(j):
+    """the configuration of the j-th enumerated run: versions, entry points and close-reason tables rotate with co-prime periods"""
+    return {'ver': VERSIONS[j % 7], 'entry': ENTRIES[j % 3], 'reasons': j % 2 == 1}
+
+
+def cfg_random(rnd):
+    return {'ver': rnd.choice(VERSIONS), 'entry': rnd.choice(ENTRIES), 'reasons': rnd.random() < 0.5}
+
 
 F13_NAME = 'held <= capacity'
 F13_WHAT = 'held == capacity + 1 (queue full, one event in flight in the pump)'
@@ -137,7 +163,7 @@ def unbuffered_session(ctx, wsmod, errors):
         e.__cause__ = RuntimeError('received %s (going away); then sent %s (going away)' % (kind[3:], kind[3:]))
         return e
 
-    async def run_u(evtoks, sched, pre_accept, kinds, close_code, fail_kind, ending, variant):
+    async def run_u(evtoks, sched, pre_accept, kinds, close_code, fail_kind, ending, variant, cfg):
         loop = asyncio.get_running_loop()
         events = [mk(t, variant) for t in evtoks]
         ids = [DISC if t[0] == 'd' else int(t[1:]) for t in evtoks]
@@ -171,7 +197,8 @@ def unbuffered_session(ctx, wsmod, errors):
             fk, o['fail'] = o['fail'], None
             if fk:
                 raise mkexc(fk)
-        ws = wsmod.WebSocket('2.3', {'subprotocols': []}, receive, send, opts.media_handlers, 0, {})
+        ws = wsmod.WebSocket(cfg['ver'], {'subprotocols': []}, receive, send, opts.media_handlers, 0, dict(opts.default_close_reasons) if cfg['reasons'] else {})
+        hdr = 1 if ws.supports_accept_headers else 0
         recv_task = None
 
         async def do_recv(k):
@@ -286,11 +313,11 @@ def unbuffered_session(ctx, wsmod, errors):
             t.cancel()
         if left:
             await asyncio.gather(*left, return_exceptions=True)
-        return o, steps, final, waiting, undelivered, ids, len(left)
+        return o, steps, final, waiting, undelivered, ids, len(left), hdr
 
-    def judge_u(evtoks, sched, pre_accept, kinds, close_code, fail_kind, ending, variant, res):
-        o, steps, final, waiting, undelivered, ids, left = res
-        case = {'capacity': 0, 'events': ' '.join(evtoks), 'schedule': sched, 'accept_first': pre_accept, 'receive_kinds': kinds, 'close_code': close_code,
+    def judge_u(evtoks, sched, pre_accept, kinds, close_code, fail_kind, ending, variant, cfg, res):
+        o, steps, final, waiting, undelivered, ids, left, hdr = res
+        case = {'capacity': 0, 'spec_version': cfg['ver'], 'default_close_reasons': 'stock' if cfg['reasons'] else 'empty', 'events': ' '.join(evtoks), 'schedule': sched, 'accept_first': pre_accept, 'receive_kinds': kinds, 'close_code': close_code,
                 'fail': fail_kind, 'ending': ending, 'other_payload_key_is_None': variant, 'legend': LEGEND,
                 'steps': ['%s -> %s %s' % tuple(x) for x in steps][:120], 'observed': o['observed']}
         obs = [x[1] for x in steps]
@@ -329,10 +356,11 @@ def unbuffered_session(ctx, wsmod, errors):
         elif left:
             bad = '%d task(s) still running after close()' % left
         ctx.oracle('a receive that can be satisfied is never left waiting', bad is None, bad, case)
-        sess.case({k: case[k] for k in ('events', 'schedule', 'accept_first', 'receive_kinds', 'close_code', 'fail', 'ending', 'other_payload_key_is_None')})
-        sess.op('run ' + ' '.join(evtoks) + ' | ' + ' '.join(x[0] for x in steps), ' '.join('%s/%s' % (x[1], x[2]) for x in steps) + ' | ' + final)
-        ctx.seen(('u', tuple(evtoks), sched, pre_accept, kinds, close_code, fail_kind, ending, variant), any(x.startswith('ret:') for x in obs))
-        ctx.count('unbuffered_runs'); ctx.count('unbuffered_ending_' + ending)
+        sess.case({k: case[k] for k in ('spec_version', 'default_close_reasons', 'events', 'schedule', 'accept_first', 'receive_kinds', 'close_code', 'fail', 'ending', 'other_payload_key_is_None')})
+        sess.op('cfg %s 0 run ' % cfg['ver'] + ' '.join(evtoks) + ' | ' + ' '.join(x[0] for x in steps),
+                'hdr=%d ' % hdr + ' '.join('%s/%s' % (x[1], x[2]) for x in steps) + ' | ' + final)
+        ctx.seen(('u', tuple(evtoks), sched, pre_accept, kinds, close_code, fail_kind, ending, variant, cfg['ver'], cfg['reasons']), any(x.startswith('ret:') for x in obs))
+        ctx.count('unbuffered_runs'); ctx.count('unbuffered_ending_' + ending); ctx.count('unbuffered_spec_version_' + cfg['ver'])
         for pre, name in (('wsdE', 'unbuffered_disconnect_received'), ('wsdS', 'unbuffered_receive_on_closed_socket'), ('perr', 'unbuffered_payload_type_error'),
                           ('cancelled', 'unbuffered_receive_cancelled_while_parked'), ('closeSent', 'unbuffered_closed_by_app'), ('sendWsd', 'unbuffered_send_saw_disconnect'),
                           ('sendRaised', 'unbuffered_send_error_passed_through'), ('na', 'unbuffered_operation_not_allowed')):
@@ -344,6 +372,7 @@ def unbuffered_session(ctx, wsmod, errors):
         rnd = ctx.rng
         i, nsh = ctx.shard
         ks = (1, 2) if ctx.quick else (1, 2, 3)
+        j = 0
         for si, sched in enumerate(schedules(ctx.quick)):
             for k in ks:
                 if (si + k) % nsh != i:
@@ -352,7 +381,8 @@ def unbuffered_session(ctx, wsmod, errors):
                     evtoks = ['t%d' % n for n in range(k)] + ([disc] if disc else [])
                     endings = ('drain', 'close') if len(sched) <= (3 if ctx.quick else 5) else ('drain',)
                     for ending in endings:
-                        args = (evtoks, sched, True, 't', None, None, ending, False)
+                        j += 1
+                        args = (evtoks, sched, True, 't', None, None, ending, False, cfg_at(j))
                         judge_u(*args, await run_u(*args))
         for _ in range(ctx.n(3000, 40000)):
             k = rnd.randint(0, 6)
@@ -368,7 +398,7 @@ def unbuffered_session(ctx, wsmod, errors):
             close_code = rnd.choice([None, None, 1000, 1001, 3000, 4999, 999, 0, 1004, 1005, 1006, 1014, 1015, 1999, 2000, 1003, 1007])
             fail_kind = rnd.choice(['ok1000', 'subproto', 'other', 'os:-', 'os:x', 'os:1001', 'os:1006', 'os:4000', 'os:0000'])
             ending = 'close' if rnd.random() < 0.25 else 'drain'
-            args = (evtoks, sched, pre_accept, kinds, close_code, fail_kind, ending, rnd.random() < 0.3)
+            args = (evtoks, sched, pre_accept, kinds, close_code, fail_kind, ending, rnd.random() < 0.3, cfg_random(rnd))
             judge_u(*args, await run_u(*args))
             ctx.count('unbuffered_random_runs')
     asyncio.run(main())
@@ -382,6 +412,45 @@ def run(ctx):
     from falcon import errors
 
     opts = None
+    apps = {}
+    hook = {}
+    SCOPE = {'type': 'websocket', 'path': '/ws', 'query_string': b'', 'headers': [], 'subprotocols': [], 'http_version': '1.1', 'scheme': 'ws',
+             'server': ('127.0.0.1', 8000), 'client': ('127.0.0.1', 50000), 'root_path': ''}
+
+    class Parked:
+        """the responder of the App entry point: accepts, hands the framework's WebSocket to the scheduler and parks until released"""
+        async def on_websocket(self, req, ws):
+            h = dict(hook)
+            await ws.accept()
+            h['instrument'](ws)
+            h['box'].set_result(ws)
+            await h['release']
+
+    async def via_app(cfg, cap, reasons, receive, send, instrument):
+        """the WebSocket as an application gets it: built by falcon.asgi.App from ws_options.max_receive_queue and the scope's announced spec version"""
+        import falcon.asgi
+        loop = asyncio.get_running_loop()
+        app = apps.get(cap)
+        if app is None:
+            app = apps[cap] = falcon.asgi.App()
+            app.add_route('/ws', Parked())
+            app.ws_options.max_receive_queue = cap
+        app.ws_options.default_close_reasons = reasons
+        box = loop.create_future(); release = loop.create_future()
+        hook.update(box=box, release=release, instrument=instrument)
+        first = [True]
+
+        async def app_receive():
+            if first[0]:
+                first[0] = False
+                return {'type': 'websocket.connect'}
+            return await receive()
+        task = asyncio.ensure_future(app(dict(SCOPE, asgi={'version': '3.0', 'spec_version': cfg['ver']}), app_receive, send))
+        for _ in range(50):
+            if box.done() or task.done():
+                break
+            await asyncio.sleep(0)
+        return (box.result() if box.done() else None), task, release
     sess = ctx.session('_BufferedReceiver event log (real WebSocket on a scripted loop) is a trace of the Wb segment model', 'wbdriver')
     f13_recorded = [0]
 
@@ -415,8 +484,9 @@ def run(ctx):
         def __getattr__(s, n):
             return getattr(s.loop, n)
 
-    async def run_one(cap, k, disc, sched, ending):
-        """ending: 'drain' (deliver everything, receive everything), 'close' (ws.close() right after the schedule)"""
+    async def run_one(cap, k, disc, sched, ending, cfg):
+        """ending: 'drain' (deliver everything, receive everything), 'close' (ws.close() right after the schedule);
+        cfg: announced spec version, entry point (direct construction / through falcon.asgi.App), default_close_reasons empty or stock"""
         nonlocal opts
         loop = asyncio.get_running_loop()
         if opts is None:
@@ -426,7 +496,8 @@ def run(ctx):
         if disc:
             events.append({'type': 'websocket.disconnect', 'code': 1001, 'n': DISC})
         o = {'pending': [], 'delivered': 0, 'maxpulls': 0, 'got': [], 'errors': [], 'sent': [], 'sends': [], 'f13': None, 'bound': None,
-             'pull_idle': None, 'closed': False, 'disc_delivered': False, 'turns_since_disc': 0, 'prompt': None, 'active_recv': 0}
+             'pull_idle': None, 'closed': False, 'disc_delivered': False, 'turns_since_disc': 0, 'prompt': None, 'active_recv': 0,
+             'quiet': 0, 'readahead': None, 'props': None, 'entry_failed': None}
 
         async def receive():
             f = loop.create_future(); o['pending'].append(f); log.append('pull')
@@ -445,11 +516,29 @@ def run(ctx):
 
         async def send(m):
             o['sent'].append(m)
-        ws = wsmod.WebSocket('2.3', {'subprotocols': []}, receive, send, opts.media_handlers, cap, {})
-        await ws.accept()
+        def instrument(w):
+            b = w._buffered_receiver
+            if cap > 0:
+                b._messages = LogDeque(log); b._loop = LoopProxy(loop, log, b)
+        reasons = dict(opts.default_close_reasons) if cfg['reasons'] else {}
+        app_task = release = None
+        if cfg['entry'] == 'direct':
+            ws = wsmod.WebSocket(cfg['ver'], {'subprotocols': []}, receive, send, opts.media_handlers, cap, reasons)
+            await ws.accept()
+            instrument(ws)
+        else:
+            ws, app_task, release = await via_app(cfg, cap, reasons, receive, send, instrument)
+            if ws is None:
+                o['entry_failed'] = 'falcon.asgi.App did not hand an accepted WebSocket to the responder (task %s)' % (
+                    'raised %r' % (app_task.exception(),) if app_task.done() and not app_task.cancelled() else 'still pending')
+                app_task.cancel()
+                await asyncio.gather(app_task, return_exceptions=True)
+                for f in list(o['pending']):
+                    f.cancel()
+                await asyncio.sleep(0)
+                return o, log, None, False, None, events
         br = ws._buffered_receiver
-        if cap > 0:
-            dq = LogDeque(log); br._messages = dq; br._loop = LoopProxy(loop, log, br)
+        o['hdr'] = 1 if ws.supports_accept_headers else 0
         pump_task = br._pump_task
         recv_task = None
 
@@ -474,6 +563,15 @@ def run(ctx):
                 o['active_recv'] -= 1
 
         def observe():
+            # the public properties: an open connection before the client's disconnect was handed over, a lost one a loop turn after
+            # (unbuffered mode: the disconnect is handed over to a receive, which reports it itself: o['closed'])
+            if o['props'] is None and not o['closed']:
+                lost = cap > 0 and o['disc_delivered']
+                if lost and o['turns_since_disc'] >= 1 and (not ws.closed or ws.ready):
+                    o['props'] = ('closed=%s ready=%s although the disconnect had been handed to the framework %d loop turn(s) earlier (after %d steps)'
+                                  % (ws.closed, ws.ready, o['turns_since_disc'], len(o['trail'])))
+                elif not lost and (ws.closed or not ws.ready):
+                    o['props'] = 'closed=%s ready=%s although the client had not disconnected and nothing was closed (after %d steps)' % (ws.closed, ws.ready, len(o['trail']))
             if cap == 0:
                 return
             dql = len(br._messages); ret = len([g for g in o['got'] if g != 'synthetic'])
@@ -485,10 +583,17 @@ def run(ctx):
                                   % (dql, h, inflight, unresolved, o['maxpulls'], cap))
             elif h == cap + 1 and dql == cap and inflight == 1 and o['f13'] is None:
                 o['f13'] = 'after %d steps: queue %d, in flight 1' % (len(o['trail']), dql)
+            # read-ahead: with room for more (fewer than the configured number held), a connected client and a quiescent loop (two turns
+            # without any other step), the framework must be waiting on the server - otherwise a disconnect that reaches the server now
+            # could not be reported to a sender
+            if (o['readahead'] is None and o['quiet'] >= 2 and not o['closed'] and not o['disc_delivered'] and h < cap and unresolved == 0):
+                o['readahead'] = ('after %d steps (%d quiet loop turns): the framework holds %d event(s) of the %d configured, the client is connected, '
+                                  'yet no pull on the server is outstanding' % (len(o['trail']), o['quiet'], h, cap))
 
         async def step(ch):
             nonlocal recv_task
             o['trail'].append(ch)
+            o['quiet'] = o['quiet'] + 1 if ch == 'Y' else 0
             if ch == 'D':
                 live = [f for f in o['pending'] if not f.done()]
                 if live and o['delivered'] < len(events):
@@ -569,6 +674,16 @@ def run(ctx):
             await asyncio.gather(recv_task, return_exceptions=True)
         if ending != 'close':
             await ws.close()
+        if app_task is not None:            # let the parked responder return: the App then closes (a no-op here) and finishes
+            release.set_result(None)
+            for _ in range(20):
+                if app_task.done():
+                    break
+                await asyncio.sleep(0)
+            if not app_task.done():
+                o['errors'].append('the App task did not finish after the responder returned')
+            elif app_task.exception() is not None:
+                o['errors'].append('the App task raised %r' % (app_task.exception(),))
         for f in list(o['pending']):
             f.cancel()
         for _ in range(2):
@@ -582,11 +697,17 @@ def run(ctx):
             await asyncio.gather(*left, return_exceptions=True)
         return o, log[:n_log], final, waiting, leftover, events
 
-    def judge(cap, k, disc, sched, ending, res):
+    def judge(cap, k, disc, sched, ending, cfg, res):
         o, log, final, waiting, leftover, events = res
-        case = {'capacity': cap, 'messages': k, 'disconnect': disc, 'schedule': sched, 'ending': ending,
+        case = {'capacity': cap, 'spec_version': cfg['ver'], 'entry': cfg['entry'] + (' (falcon.asgi.App, ws_options.max_receive_queue=%d)' % cap if cfg['entry'] == 'app' else ''),
+                'default_close_reasons': 'stock' if cfg['reasons'] else 'empty', 'messages': k, 'disconnect': disc, 'schedule': sched, 'ending': ending,
                 'legend': 'D deliver next event into the outstanding pull, R start receive_text(), Y one loop turn, C cancel the pending receive, S send_text, then drain=(YYDYYRYY)* or close()',
                 'received': o['got'], 'event_log': log[:120]}
+        ctx.count('spec_version_' + cfg['ver']); ctx.count('entry_' + cfg['entry'])
+        if cfg['reasons']: ctx.count('with_stock_close_reasons')
+        ctx.oracle('the configured application gets an accepted WebSocket', o['entry_failed'] is None, o['entry_failed'], case)
+        if o['entry_failed'] is not None:
+            return
         exp = list(range(k)) + ([DISC] if disc else [])
         got = [g for g in o['got']]
         # 1. FIFO / once / lossless
@@ -616,6 +737,8 @@ def run(ctx):
                     ctx.oracle(F13_NAME, False, F13_WHAT, dict(case, where=o['f13']))
             else:
                 ctx.oracle(F13_NAME, True)
+            ctx.oracle('while fewer than the configured number of events are held and the client is connected, the framework keeps a pull outstanding on the server (it reads ahead, so a disconnect can be noticed while the application only sends)',
+                       o['readahead'] is None, o['readahead'], case)
         else:
             b = o['pull_idle'] or ('%d pulls outstanding at once' % o['maxpulls'] if o['maxpulls'] > 1 else None)
             ctx.oracle('unbuffered mode: one pull per receive in progress, nothing pulled ahead', b is None, b, case)
@@ -630,14 +753,18 @@ def run(ctx):
         ctx.oracle('a receive that can be satisfied is never left waiting', bad is None, bad, case)
         # 4. disconnect reported to a sender promptly
         ctx.oracle('a client disconnect is reported to a sender promptly, and only then', o['prompt'] is None, o['prompt'], case)
+        ctx.oracle('closed / ready report the client\'s disconnect one loop turn after it was handed to the framework, and an open connection before',
+                   o['props'] is None, o['props'], case)
         # 5. closing stops the reader
         ctx.oracle('closing stops the background reader: no task left running, no outstanding pull', leftover is None, leftover, case)
         # correspondence: the logged atomic steps are a trace of the model, with matching final observables
         if cap > 0:
-            sess.case({'capacity': cap, 'messages': k, 'disconnect': disc, 'schedule': sched, 'ending': ending})
-            sess.op('log %d ' % cap + ' '.join(log),
-                    'accepted q=%d held=%d ret=%d dlv=%d disc=%d pump=%d' % (final['q'], final['held'], final['ret'], final['dlv'], final['disc'], final['pump']))
-        ctx.seen((cap, k, disc, sched, ending), bool([g for g in got if isinstance(g, int) and g != DISC]))
+            sess.case({'capacity': cap, 'spec_version': cfg['ver'], 'entry': cfg['entry'], 'default_close_reasons': case['default_close_reasons'],
+                       'messages': k, 'disconnect': disc, 'schedule': sched, 'ending': ending})
+            # the model decides from (spec version, max_receive_queue) which receive path the socket uses (Wm.wire), then replays the log on it
+            sess.op('cfg %s %d log ' % (cfg['ver'], cap) + ' '.join(log),
+                    'hdr=%d accepted q=%d held=%d ret=%d dlv=%d disc=%d pump=%d' % (o['hdr'], final['q'], final['held'], final['ret'], final['dlv'], final['disc'], final['pump']))
+        ctx.seen((cap, k, disc, sched, ending, cfg['ver'], cfg['entry'], cfg['reasons']), bool([g for g in got if isinstance(g, int) and g != DISC]))
         ctx.count('capacity_%d' % cap); ctx.count('ending_' + ending)
         if 'C' in sched: ctx.count('with_cancellation')
         if 'recvCancelled' in log: ctx.count('receive_actually_cancelled_while_parked')
@@ -661,10 +788,27 @@ def run(ctx):
                         endings = ('drain', 'close') if len(sched) <= (3 if ctx.quick else 5) else ('drain',)
                         for ending in endings:
                             j += 1
-                            judge(cap, k, disc, sched, ending, await run_one(cap, k, disc, sched, ending))
+                            cfg = cfg_at(j)
+                            judge(cap, k, disc, sched, ending, cfg, await run_one(cap, k, disc, sched, ending, cfg))
         ctx.count('exhaustive_runs', j)
-        # directed: fill the queue (capacity + 1 deliveries: queue full, pump parked holding one), then every tail of <= 2 steps, then drain / close
+        # configuration cross product: every schedule of length <= 2 under every spec version x entry point x capacity x disconnect x ending
         import itertools
+        c = 0
+        for l in (0, 1, 2):
+            for sch in itertools.product('DRYCS', repeat=l):
+                for cap in (0, 1, 2, 3, 4):
+                    c += 1
+                    if c % nsh != i:
+                        continue
+                    for ver in VERSIONS:
+                        for entry in ('direct', 'app'):
+                            for disc in (False, True):
+                                for ending in ('drain', 'close'):
+                                    cfg = {'ver': ver, 'entry': entry, 'reasons': (c + len(ver)) % 2 == 0}
+                                    sched = ''.join(sch)
+                                    judge(cap, 2, disc, sched, ending, cfg, await run_one(cap, 2, disc, sched, ending, cfg))
+                                    ctx.count('configuration_cross_product_runs')
+        # directed: fill the queue (capacity + 1 deliveries: queue full, pump parked holding one), then every tail of <= 2 steps, then drain / close
         d = 0
         for cap in (1, 2, 3, 4):
             base = 'Y' + 'DY' * (cap + 1)
@@ -677,13 +821,16 @@ def run(ctx):
                         for disc in (False, True):
                             for ending in ('drain', 'close'):
                                 sched = base + ''.join(tail)
-                                judge(cap, k, disc, sched, ending, await run_one(cap, k, disc, sched, ending))
+                                j += 1
+                                cfg = cfg_at(j)
+                                judge(cap, k, disc, sched, ending, cfg, await run_one(cap, k, disc, sched, ending, cfg))
                                 ctx.count('directed_full_queue_runs')
         for _ in range(ctx.n(4000, 60000)):
             cap = rnd.choice([0, 1, 1, 2, 3, 4]); k = rnd.randint(1, 8); disc = rnd.random() < 0.5
             sched = ''.join(rnd.choice('DDRRYYYCS') for _ in range(rnd.randint(5, 40)))
             ending = 'close' if rnd.random() < 0.25 else 'drain'
-            judge(cap, k, disc, sched, ending, await run_one(cap, k, disc, sched, ending))
+            cfg = cfg_random(rnd)
+            judge(cap, k, disc, sched, ending, cfg, await run_one(cap, k, disc, sched, ending, cfg))
             ctx.count('random_runs')
     asyncio.run(main())
     n13 = ctx.dist.get('f13_runs_held_eq_capacity_plus_1', 0)
@@ -702,7 +849,8 @@ LEVEL_TEXT = ('Machine-checked proofs (Lean 4) over an atomic-segment transition
               'Unbuffered mode (max_receive_queue = 0, the server\'s receive bound directly) has its own small-step model Wu (accept / receive call / hand-over+resume / cancel / send with server failure classes / close): '
               'for every schedule handed-over ++ at-the-server = arrived and observed = handed-over (fifo_lossless_once, nothing_buffered), the disconnect is consumed exactly after everything before it and is sticky '
               '(disconnect_after_preceding, disconnect_sticky), a parked receive with an event available can always complete (parked_receive_completes); both paths refine the same FIFO specification '
-              '(unbuffered_refines_fifo, buffered_unbuffered_agree). Any enabled segment may fire, which over-approximates asyncio\'s ready queue. The model is tied to the real '
+              '(unbuffered_refines_fifo, buffered_unbuffered_agree). Which of the two paths a socket runs is decided by WebSocket.__init__ from max_receive_queue alone (model Wm: path_ignores_version, buffered_iff, '
+              'direct_iff, configured_capacity_bound), and every correspondence line lets the model derive the path from (announced spec version, configured queue) before replaying the run. Any enabled segment may fire, which over-approximates asyncio\'s ready queue. The model is tied to the real '
               'falcon.asgi.ws.WebSocket on every run: the object is driven on a scripted event loop through every schedule up to the stated bounds (and random longer ones) with a '
               'logging deque and future factory, and the logged step sequence must be accepted by the compiled trace-inclusion checker with matching final observables; an '
               'independent oracle written from the statement decides failing schedules.')
